@@ -88,4 +88,12 @@ theorem regex_no_wild_jump (cx : Regex.Ctx) (hwf : C11.WfProg cx.prog)
     Regex.loop cx dep pc pos m cuts ≠ Regex.Res.trap :=
   (C11.no_edge_trap cx hwf hat dep pc pos m cuts hpc).1
 
+/-! ### the command line is length-checked once (`ex_exec`) -/
+
+/-- a command line that does not fit `EXLEN` is rejected before any of its parts is copied -/
+theorem exec_line_checked (f : Nat) (ed : Ex.Ed) (ln : Bytes) (h : ln.length ≥ Gen.EXLEN) :
+    Ex.exExec (f + 1) ed ln = some (1, ed.show (Ex.strOf "command too long")) := by
+  rw [Ex.exExec]
+  simp [h]
+
 end Neatvi.Props.C05
